@@ -12,7 +12,7 @@ ANCHORS = ["pyoma2.functions.ssi:build_hank", "pyoma2.algorithms.ssi:SSIdat.run"
 REQUIRED_MONITORS = ["impulse-pairs(cov_mm)", "impulse-pairs(cov_R)", "definition(cov_mm)", "definition(cov_R)", "projection-gram(dat)",
                      "bilinearity(cov_mm)", "bilinearity(cov_R)", "result.H@SSIcov", "result.H@SSIdat"]
 ALL_STATES = [f"l={l}" for l in range(1, 5)] + [f"br={b}" for b in range(1, 6)] + ["ref=subset", "ref=all", "ref unordered"]
-REQUIRED_STATES = [f"l={l}" for l in range(1, 5)] + [f"br={b}" for b in range(1, 6)] + ["ref=subset", "Yref is Y (same object)", "same instance re-run with another ref_ind",
+REQUIRED_STATES = ["reference channels counted from the end (negative indices)", "build_hank called with calc_unc / nb by position"] + [f"l={l}" for l in range(1, 5)] + [f"br={b}" for b in range(1, 6)] + ["ref=subset", "Yref is Y (same object)", "same instance re-run with another ref_ind",
                                                                                                  "integer-typed records", "ordmax above br * (number of references)", "matrix requested together with the uncertainty factor", "one run-parameter object shared by SSIdat and SSIcov", "record amplitude below 1e-6", "two nearly identical reference channels"]
 RULE = ("(a) exhaustive over a basis: for every channel count 1..4, every reference subset, br 1..5 and the listed record lengths, build_hank "
         "is evaluated on ALL pairs of unit impulses (e_{a,s}, e_{b,t}); each pair must light exactly the cells (i,a;j,b) with lag i+j+1 "
@@ -190,6 +190,12 @@ def run_random(ctx, rng):
     Yc, Yrc = Y.copy(), Yref.copy()
     for method, fdef in (("cov_mm", def_cov_mm), ("cov_R", def_cov_R)):
         H, T = ssi.build_hank(Y, Yref, br, method)
+        if rng.random() < 0.3:
+            # the documented positional order (Y, Yref, br, method, calc_unc, nb) means what the keywords mean
+            Hp, _ = ssi.build_hank(Y, Yref, br, method, False) if rng.random() < 0.5 else ssi.build_hank(Y, Yref, br, method, False, 100)
+            ctx.state("build_hank called with calc_unc / nb by position")
+            ctx.check(np.shape(Hp) == np.shape(H) and np.array_equal(Hp, H), f"{method}:positional_call_differs",
+                      lambda: f"build_hank(Y, Yref, br, {method!r}, False) is not build_hank(Y, Yref, br, {method!r})")
         ctx.ev(f"definition({method})")
         if not ctx.check(H.shape == shape, f"{method}:shape", lambda: f"{method}: shape {H.shape} expected {shape} (l={l}, r={r}, br={br})"):
             continue
@@ -260,6 +266,11 @@ def run_classes(ctx, rng):
     l = int(rng.integers(2, 6))
     r = int(rng.integers(1, l + 1))
     refidx = [int(x) for x in rng.permutation(l)[:r]]
+    if rng.random() < 0.3:
+        # channels counted from the end, as any NumPy index may be (ref_ind=[-1]: the last channel is the reference)
+        refidx = [(x - l) if rng.random() < 0.6 else x for x in refidx]
+        if any(x < 0 for x in refidx):
+            ctx.state("reference channels counted from the end (negative indices)")
     br = int(rng.integers(2, 8))
     Nd = int(rng.integers(400, 1500))
     data, *_ = gen.sim_response(rng, l, Nd, 100.0, m=2)
